@@ -274,6 +274,14 @@ def rule_b(repo, chk):
 def rule_c(repo, chk):
     f = repo.func(EVENTS, 'generate_events.reduce_time_left')
     chk.touch(f)
+    from .common import snapshot_view
+    g0 = f.cfg()
+    reads = [n for n in g0.nodes if n.ast is not None and n.kind in ('stmt', 'test') and
+             any(isinstance(w, ast.Attribute) and w.attr == '_time_left' and isinstance(w.ctx, ast.Load) for w in ast.walk(n.ast))]
+    for n in reads:
+        chk.ob('c', f.ref, 'the budget is compared (or copied for the comparison) under the event lock, in the same critical section as the write',
+               _under(n, 'self._lock'), loc(f, n.ast), discr='read-locked')
+    f = snapshot_view(f)
     g = f.cfg()
     p = f.params[1]
     writes = [n for n in g.nodes if n.kind == 'stmt' and 'self' in pat.stores_attr(n.ast, '_time_left')]
